@@ -334,6 +334,10 @@ public:
 			if (a.isBit()) { if (rst.empty()) setB(t[1], reg(a.b())); else setB(t[1], reg(a.b(), rst == "1" ? '1' : '0')); }
 			else { if (rst.empty()) setU(t[1], reg(a.u())); else { std::string ls = std::to_string(rst.size()) + "b" + rst; UInt rv(ls.c_str()); setU(t[1], reg(a.u(), rv)); } }
 		}
+		else if (op == "namebit") {    // namebit X I NAME : names the ALIAS bit X[I] (x[i].setName(..)), not a copy of it; I = msb names X.msb()
+			Val &a = get(t[1]);
+			if (t[2] == "msb") a.u().msb().setName(t[3]); else a.u()[(size_t)std::stoull(t[2])].setName(t[3]);
+		}
 		else if (op == "name" && get(t[1]).isEnum()) { get(t[1]).e().setName(t[2]); }
 		else if (op == "name") { Val &a = get(t[1]); if (a.isBit()) a.b().setName(t[2]); else a.u().setName(t[2]); }
 		else if (op == "area") { groupStack.push_back(std::make_unique<GroupScope>(t.size() > 2 && t[2] == "entity" ? GroupScope::GroupType::ENTITY : GroupScope::GroupType::AREA, t[1])); }
